@@ -152,6 +152,7 @@ class FuncV(object):
         self.kw_defaults = {}
         self.kind = "function"  # or property/classmethod/staticmethod
         self.setter = None
+        self.memo = None        # dict for functools.lru_cache / cache decorated functions: the SAME result object is returned for equal arguments
 
     @property
     def qualname(self):
@@ -279,6 +280,7 @@ TYPE_INT = TypeTok("int", lambda v: _is_int_scalar(v) or isinstance(v, bool))
 TYPE_FLOAT = TypeTok("float", _is_real_scalar)
 TYPE_BOOL = TypeTok("bool", lambda v: isinstance(v, bool) or (isinstance(v, T) and v.is_bool))
 TYPE_STR = TypeTok("str", lambda v: isinstance(v, str))
+TYPE_BYTES = TypeTok("bytes", lambda v: isinstance(v, bytes))
 TYPE_LIST = TypeTok("list", lambda v: isinstance(v, list))
 TYPE_TUPLE = TypeTok("tuple", lambda v: isinstance(v, tuple))
 TYPE_DICT = TypeTok("dict", lambda v: isinstance(v, dict))
@@ -639,6 +641,9 @@ class Interp(object):
                     prop.setter = f
                     f.kind = "setter"
                     return prop
+            elif dn in ("lru_cache", "functools.lru_cache", "cache", "functools.cache") or \
+                    (isinstance(dec, ast.Call) and _dotted(dec.func) in ("lru_cache", "functools.lru_cache")):
+                f.memo = {}
             # every other decorator is dropped (listed in the module docstring)
         return f
 
@@ -1438,6 +1443,15 @@ class Interp(object):
         if isinstance(f, BoundMethod):
             return self.call_function(f.func, [f.self_v] + list(args), kwargs)
         if isinstance(f, FuncV):
+            if f.memo is not None:
+                try:
+                    key = (tuple(a if isinstance(a, (int, str, Q, bool, type(None), T)) else ("obj", id(a)) for a in args),
+                           tuple(sorted((k, v if isinstance(v, (int, str, Q, bool, type(None), T)) else ("obj", id(v))) for k, v in kwargs.items())))
+                except TypeError:
+                    raise Unsupported("memoised function %s called with unhashable arguments" % f.qualname)
+                if key not in f.memo:
+                    f.memo[key] = self.call_function(f, list(args), kwargs)
+                return f.memo[key]
             return self.call_function(f, list(args), kwargs)
         if isinstance(f, ClassV):
             return self.instantiate(f, args, kwargs)
